@@ -18,7 +18,7 @@ func init() {
 			"(b) in both improvement loops the snapshot into lastModel is taken before the cost is computed and before the result is published, with no writer of Solver.model in between, so the reported cost and the reported model belong together; " +
 			"(c) the constant results are returned under the stated conditions: Minimize -1 / Optimal Status Unsat exactly when the first Solve reports Unsat, 0 / (Sat, Weight 0) when there is no cost function.",
 		NotDecided: "optimality itself (a for-all over models), the interaction of the added constraint with top-level facts, negative coefficients (D13), nil weights (D19); nothing is executed.",
-		Rules:      []ruleFn{ruleR3_1, ruleR3_2, ruleR3_3, ruleR3_5, ruleR9_4, ruleR9_5, ruleR9_6, ruleR2_5, ruleR2_9, ruleR13_9, ruleR3_6, ruleR9_7},
+		Rules:      []ruleFn{ruleR3_1, ruleR3_2, ruleR3_3, ruleR3_5, ruleR9_4, ruleR9_5, ruleR9_6, ruleR2_5, ruleR2_9, ruleR13_9, ruleR3_6, ruleR3_7, ruleR9_7},
 		Fixtures:   []func(*World) []string{fixtureE7},
 	})
 }
@@ -62,7 +62,57 @@ func ruleR3_1(w *World, r *Report) {
 	}
 	asym := asymOptimalMinimize()
 	res := e7Compare(w, a, b, e7opts{}, asym)
-	e7Report(w, r, "R3.1", "Optimal~Minimize", res, asym, w.Pos(a.Pos()))
+	// The comparison is syntactic at heart: when one of the two entry points is restructured and the other is not,
+	// facts differ although both still do the same. A difference is reported only if the two functions are not each
+	// vouched for by the rules that check an optimisation loop against its specification on its own (snapshot order,
+	// constant results, the strengthening step, the parallel sorter).
+	rt := newReport()
+	rt.Rule("R3.1", "", 0)
+	e7Report(w, rt, "R3.1", "Optimal~Minimize", res, asym, w.Pos(a.Pos()))
+	differs := false
+	for _, o := range rt.Obs {
+		if o.status != Discharged {
+			differs = true
+		}
+	}
+	vouched := false
+	if differs {
+		rs := newReport()
+		ruleR3_2(w, rs)
+		ruleR3_3(w, rs)
+		ruleR3_5(w, rs)
+		ruleR3_6(w, rs)
+		ruleR3_7(w, rs)
+		vouched = len(rs.Obs) > 0
+		for _, o := range rs.Obs {
+			if o.status != Discharged {
+				vouched = false
+			}
+		}
+		// both loops must have been seen by the step rule
+		seenA, seenB := false, false
+		for _, o := range rs.Obs {
+			if o.Rule == "R3.5" && strings.Contains(o.Construct, w.FuncName(a)) {
+				seenA = true
+			}
+			if o.Rule == "R3.5" && strings.Contains(o.Construct, w.FuncName(b)) {
+				seenB = true
+			}
+		}
+		vouched = vouched && seenA && seenB
+	}
+	for _, o := range rt.Obs {
+		switch {
+		case o.status == Discharged:
+			r.OK("R3.1", o.Construct, o.Pos, o.Detail)
+		case vouched:
+			r.OK("R3.1", o.Construct, o.Pos, "the two functions differ in shape here, but each of them satisfies on its own the snapshot, constant-result, strengthening-step, sorter and heap rules (R3.2, R3.3, R3.5, R3.6, R3.7): "+o.Detail)
+		case o.status == Violated:
+			r.Bad("R3.1", o.Construct, o.Pos, o.Detail)
+		default:
+			r.Unk("R3.1", o.Construct, o.Pos, o.Detail)
+		}
+	}
 	// the shared core must actually be there: the comparison of two (nearly) empty sets proves nothing
 	shared := 0
 	for _, cd := range res.Cats {
